@@ -24,6 +24,26 @@ from . import sut
 ITEMS = {f"i{v}{c}": v for v in range(10) for c in "ab"}        # two distinct items of every value 0..9
 ITEM_NAMES = sorted(ITEMS)
 MAX_LIVE = 6
+# The items of a history can be of three kinds (the managers store arbitrary objects and read their value through valueof):
+#   "str"    names, values from a table;  "int"  plain numbers that are their own value;  "tuple"  (name, value) records.
+ITEM_KINDS = ("str", "int", "tuple")
+
+
+def item_of(kind, index):
+    name = ITEM_NAMES[index % len(ITEM_NAMES)]
+    if kind == "int":
+        return ITEMS[name]
+    if kind == "tuple":
+        return (name, ITEMS[name])
+    return name
+
+
+def value_of(kind, item):
+    if kind == "int":
+        return item
+    if kind == "tuple":
+        return item[1]
+    return ITEMS[item]
 
 
 class Live:
@@ -33,8 +53,12 @@ class Live:
         self.real, self.model, self.born = real, model, born
 
 
-def make_binner(manager):
+def make_binner(manager, kind="str"):
     cls = sut.prtpy.BinnerKeepingSums if manager == "sums" else sut.prtpy.BinnerKeepingContents
+    if kind == "int":
+        return cls()                                    # the default value function: the item is its value
+    if kind == "tuple":
+        return cls(lambda item: item[1])
     return cls(ITEMS.__getitem__)
 
 
@@ -47,7 +71,7 @@ def observe(manager, binner, real):
     return sums, lists
 
 
-def compare(manager, binner, live, step, what):
+def compare(manager, binner, live, step, what, kind="str"):
     """-> list of (reason, detail) for one live array against its model."""
     probs = []
     try:
@@ -69,7 +93,7 @@ def compare(manager, binner, live, step, what):
             probs.append((f"{what}:contents-differ-from-model", {"step": step, "real": lists, "model": want_lists}))
         else:
             for i, l in enumerate(lists):
-                if sum(ITEMS[x] for x in l) != sums[i]:
+                if sum(value_of(kind, x) for x in l) != sums[i]:
                     probs.append((f"{what}:sum-does-not-describe-contents", {"step": step, "bin": i}))
                     break
                 try:
@@ -109,9 +133,9 @@ def sharing(manager, lives, step):
     return probs
 
 
-def run_ops(manager, ops):
+def run_ops(manager, ops, item_kind="str"):
     """Execute the sequence.  Returns (problems, stats): problems = list of (reason, detail), the first failing step only."""
-    binner = make_binner(manager)
+    binner = make_binner(manager, item_kind)
     lives = []
     stats = {"steps": 0, "skipped": 0, "copy_then_mutate": False, "sort_after_tie": False, "ops": {}, "max_live": 0}
     copies = []          # pairs (live a, live b) where b = copy of a, to detect a later mutation of either side
@@ -140,10 +164,10 @@ def run_ops(manager, ops):
                 if n == 0:
                     stats["skipped"] += 1
                     continue
-                item = ITEM_NAMES[op[2] % len(ITEM_NAMES)]
+                item = item_of(item_kind, op[2])
                 idx = (op[3] % (2 * n)) - n                 # -n .. n-1
                 ret = binner.add_item_to_bin(lv.real, item, idx)
-                lv.model[idx][0] += ITEMS[item]
+                lv.model[idx][0] += value_of(item_kind, item)
                 lv.model[idx][1].append(item)
                 mutated(lv)
                 if ret is not lv.real:
@@ -191,7 +215,7 @@ def run_ops(manager, ops):
                 n = len(lv.model)
                 m = op[2] % 4 if kind == "add_empty" else op[2] % (n + 1)
                 res = binner.add_empty_bins(lv.real, m) if kind == "add_empty" else binner.remove_bins(lv.real, m)
-                probs += compare(manager, binner, lv, step, f"{kind}:argument-altered-by-the-call")
+                probs += compare(manager, binner, lv, step, f"{kind}:argument-altered-by-the-call", item_kind)
                 if kind == "add_empty":
                     model = [[x[0], list(x[1])] for x in lv.model] + [[0, []] for _ in range(m)]
                 else:
@@ -207,8 +231,8 @@ def run_ops(manager, ops):
                 A, B = lives[ka], lives[kb]
                 if kind == "concat":
                     res = binner.concatenate_bins(A.real, B.real)
-                    probs += compare(manager, binner, A, step, "concat:first-argument-altered-by-the-call")
-                    probs += compare(manager, binner, B, step, "concat:second-argument-altered-by-the-call")
+                    probs += compare(manager, binner, A, step, "concat:first-argument-altered-by-the-call", item_kind)
+                    probs += compare(manager, binner, B, step, "concat:second-argument-altered-by-the-call", item_kind)
                     model = [[x[0], list(x[1])] for x in A.model + B.model]
                     new = Live(res, model, step)
                     lives[:] = [l for l in lives if l is not A and l is not B] + [new]
@@ -236,7 +260,7 @@ def run_ops(manager, ops):
         stats["ops"][kind] = stats["ops"].get(kind, 0) + 1
         stats["max_live"] = max(stats["max_live"], len(lives))
         for lv in lives:
-            probs += compare(manager, binner, lv, step, f"after-{kind}")
+            probs += compare(manager, binner, lv, step, f"after-{kind}", item_kind)
         probs += [(f"after-{kind}:{r}", d) for r, d in sharing(manager, lives, step)]
         if probs:
             return probs, stats
